@@ -341,6 +341,83 @@ def h_dimreg(e, follow, mult):
     e.check(_same_tokens(rest, _tokens_of(suffix)), 'register read consumed more than the register', 'dimen-consumed:register')
 
 
+def h_decimal(e, form, nsigns, follow):
+    """<optional signs><decimal constant> read by readDecimal (the scanner behind float-typed arguments)"""
+    doc = TeXDocument()
+    signs = []
+    for i in range(nsigns):
+        c = e.char('s%d' % i, 32, 45)
+        e.assume(e.one_of(c, '+- '))
+        signs.append(c)
+    dchars, num, den = _decimal(e, form, 'd')
+    chars = signs + dchars + list(follow) + ['|']
+    tex = TeX(doc)
+    tex.input(Src(chars))
+    lvl = plasTeX.ParameterCommand._enablelevel
+    try:
+        v = tex.readDecimal()
+        rest = _rest(tex)
+    except (ValueError, TypeError, IndexError, AttributeError) as ex:
+        e.fail_exception(ex)
+        return
+    e.check(plasTeX.ParameterCommand._enablelevel == lvl, 'parameter-enable level not restored', 'enable-level')
+    sign, k = _signs(e, chars)
+    e.nontriv()
+    diff = v * den - sign * num
+    e.check(api.and_(diff * 10 ** 9 <= den + num, diff * 10 ** 9 >= -(den + num)), 'decimal constant: value or sign', 'decimal-value')
+    j = len(signs) + len(dchars)
+    if form.endswith('.') and follow.startswith('.'):
+        return                                       # "1.." : what the second point belongs to is not claimed
+    exp = _expected_rest(chars, j)
+    ok = _same_tokens(rest, exp)
+    if follow.startswith(' '):
+        ok = api.or_(ok, _same_tokens(rest, exp[1:]))         # whether the blank after a decimal constant is taken is not claimed (a unit or the end of the argument follows)
+    e.check(ok, 'readDecimal did not consume exactly the literal', 'decimal-consumed')
+
+
+def h_gluereg(e, kind, stretch, shrink, follow):
+    """<optional signs><internal glue>: all three components of the register, with the sign applied to each"""
+    doc = TeXDocument()
+    cls = plasTeX.glue if kind == 'glue' else plasTeX.muglue
+    (doc.context.newskip if kind == 'glue' else doc.context.newmuskip)('ga')
+    comp = {None: None, 'pt': 2 * 65536.0, 'fil': 2e9 + 3.0, 'filll': 6e9 + 1.0}
+    dv = e.real('ga')
+    e.assume(api.and_(dv <= 2 ** 30, dv >= -2 ** 30))
+    if e.symbolic:
+        from sxv.core import RealProxy
+        val = RealProxy(cls, dv)
+        val.stretch = None if comp[stretch] is None else plasTeX.dimen(comp[stretch])
+        val.shrink = None if comp[shrink] is None else plasTeX.dimen(comp[shrink])
+    else:
+        val = cls(dv, plus=comp[stretch], minus=comp[shrink])
+    doc.context['ga'].value = val
+    s = [e.char('s%d' % i, 32, 45) for i in range(2)]
+    for c in s:
+        e.assume(e.one_of(c, '+- '))
+    chars = s + list('\\ga') + list(follow) + ['|']
+    tex = TeX(doc)
+    tex.input(Src(chars))
+    lvl = plasTeX.ParameterCommand._enablelevel
+    try:
+        g = tex.readGlue() if kind == 'glue' else tex.readMuGlue()
+        rest = _rest(tex)
+    except (ValueError, TypeError, IndexError, AttributeError) as ex:
+        e.fail_exception(ex)
+        return
+    e.check(plasTeX.ParameterCommand._enablelevel == lvl, 'parameter-enable level not restored by reading an internal %s: later register assignments are skipped' % kind, 'enable-level')
+    sign, k = _signs(e, chars)
+    e.nontriv()
+    e.check(g == sign * dv, 'internal %s: natural size / sign' % kind, 'glue-value:register')
+    for key, want in (('stretch', comp[stretch]), ('shrink', comp[shrink])):
+        got = getattr(g, key, None)
+        if want is None:
+            e.check(got is None, 'internal %s: %s present though the register has none' % (kind, key), 'glue-%s:register' % key)
+        else:
+            e.check(got is not None and got == sign * want, 'internal %s: %s component lost or wrong (TeX copies / negates every component)' % (kind, key), 'glue-%s:register' % key)
+    suffix = list(follow.lstrip(' ')) + ['|']
+    e.check(_same_tokens(rest, _tokens_of(suffix)), 'register read consumed more than the register', 'glue-consumed:register')
+
+
 FILS = {'fil': 2, 'fill': 4, 'filll': 6}
 
 
@@ -777,7 +854,17 @@ def jobs(tier, seed):
         J.append(dict(harness='h_intreg', params=dict(follow=f), label='intreg %r' % f))
         for mult in (False, True):
             J.append(dict(harness='h_dimreg', params=dict(follow=f, mult=mult), label='dimreg %r %s' % (f, mult)))
+    for f in FOLLOW_CS:
+        for kind in ('glue', 'muglue'):
+            for st, sh in ((None, None), ('pt', 'fil'), ('filll', None), (None, 'pt')):
+                if q and f not in FOLLOW_CS[:3] and (st, sh) != ('pt', 'fil'):
+                    continue
+                J.append(dict(harness='h_gluereg', params=dict(kind=kind, stretch=st, shrink=sh, follow=f), label='%sreg %s %s %r' % (kind, st, sh, f), no_twin=True))
     forms = DEC_FORMS[:5] if q else DEC_FORMS
+    for form in forms:
+        for ns in ((0, 1, 2) if q else (0, 1, 2, 3)):
+            for f in (FOLLOW[:4] if q else FOLLOW):
+                J.append(dict(harness='h_decimal', params=dict(form=form, nsigns=ns, follow=f), label='decimal %s s%d %r' % (form, ns, f), no_twin=ns != 1))
     for form in forms:
         for tk in ('none', 'true', 'sp-true', 'TRUE', 'space'):
             for f in (FOLLOW[:4] if q else FOLLOW):
